@@ -66,6 +66,8 @@ def build(fam):
     base = fam.replace("Complex", "")
     if base.endswith("nan"):          # trained on data with an entirely missing sample (XUnseen.TrainMissing)
         base = base[:-3]
+    if base.endswith("w"):            # trained with non-constant feature weights (fit(..., weights=...))
+        base = base[:-1]
     rot = None
     if "Rotator" in base:
         power = int(base[-1])
@@ -135,10 +137,14 @@ def _fit_once(fam, slayout):
         m = mk()
         with warnings.catch_warnings():
             warnings.simplefilter("ignore")
+            wx = wy = None
+            if fam.endswith("w"):
+                wx = xr.DataArray(np.linspace(0.5, 2.0, X.sizes["x"]), dims=("x",), coords={"x": X["x"]})
+                wy = xr.DataArray(np.linspace(1.5, 0.25, Y.sizes["y"]), dims=("y",), coords={"y": Y["y"]})
             if kind == "single":
-                m.fit(X, sdims(slayout))
+                m.fit(X, sdims(slayout), weights=wx) if wx is not None else m.fit(X, sdims(slayout))
             elif kind == "cross":
-                m.fit(X, Y, sdims(slayout))
+                m.fit(X, Y, sdims(slayout), weights_X=wx, weights_Y=wy) if wx is not None else m.fit(X, Y, sdims(slayout))
             else:
                 m.fit([X, Y], sdims(slayout))
             obj = m
